@@ -8,6 +8,21 @@ import implsession
 import world
 
 
+def mcfg(cfg):
+    """config as the model entry wants it (options as lists)"""
+    return [common.opt(cfg[0]), common.opt(cfg[1]), cfg[2], cfg[3], cfg[4]]
+
+
+def valid_matcher(t):
+    """only used to keep generated -f/-b values well-formed (parse_args rejects the others)"""
+    try:
+        from core import matcher
+        matcher.parse(t)
+        return True
+    except Exception:
+        return False
+
+
 def build_case(rnd, n_events=40, cmds=None, cmd_rate=0.0, config=None, **kw):
     """returns dict(config, events (model-shaped), impl_events, dialect)"""
     d, items = world.gen_history(rnd, n_events=n_events, **kw)
@@ -31,7 +46,10 @@ def build_case(rnd, n_events=40, cmds=None, cmd_rate=0.0, config=None, **kw):
             c = cmds(rnd)
             events.append(['cmd', c])
             impl.append(('cmd', c))
-    cfg = config or [None, None, 0, 1, 0]
+    cfg = list(config or [None, None, 0, 1, 0])
+    for k in (0, 1):
+        if cfg[k] is not None and not valid_matcher(cfg[k]):
+            cfg[k] = None
     return dict(config=cfg, events=events, impl_events=impl, dialect=d['name'])
 
 
@@ -138,7 +156,7 @@ def compare_case(case, mres):
 def shrink(case, owns):
     """delta-debug the event list while a difference in an owned category remains"""
     def failing(c):
-        m = common.model_eval('session', [[c['config'], c['events']]], shards=1)[0]
+        m = common.model_eval('session', [[mcfg(c['config']), c['events']]], shards=1)[0]
         r = compare_case(c, m)
         return r != 'oom' and any(owns(cat) for cat, _ in r)
     ev = list(zip(case['events'], case['impl_events']))
@@ -168,7 +186,7 @@ def shrink(case, owns):
 
 
 def run_cases(res, cases, owns, what, theorem=None, nontrivial=None, kernel_sample=20):
-    margs = [[c['config'], c['events']] for c in cases]
+    margs = [[mcfg(c['config']), c['events']] for c in cases]
     mres = common.model_eval('session', margs)
     shrunk = 0
     for c, m in zip(cases, mres):
@@ -183,7 +201,7 @@ def run_cases(res, cases, owns, what, theorem=None, nontrivial=None, kernel_samp
             if shrunk < 3:
                 try:
                     c2 = shrink(c, lambda cat: owns(cat) or cat in ('model', 'harness', 'impl.exception'))
-                    m2 = common.model_eval('session', [[c2['config'], c2['events']]], shards=1)[0]
+                    m2 = common.model_eval('session', [[mcfg(c2['config']), c2['events']]], shards=1)[0]
                     r2 = compare_case(c2, m2)
                     if r2 != 'oom':
                         mine = [(cat, det) for cat, det in r2 if owns(cat) or cat in ('model', 'harness', 'impl.exception')] or mine
